@@ -3,6 +3,7 @@ import Driver.Bin
 import Driver.Tk
 import Driver.Train
 import Driver.Dict
+import Driver.Cli
 /-! `vdriver`: reads one case per line on stdin, writes one response line per case. -/
 open V V.Drv
 
@@ -12,6 +13,8 @@ def handle (line : String) : String :=
   | "H" :: cfg :: preds :: ops :: _ => runH cfg preds ops
   | "F" :: cfg :: m :: pt :: h :: _ => runF cfg m pt h
   | "E" :: h :: _ => runE h
+  | "CP" :: fl :: m :: h :: cl :: _ => runCP fl m h cl
+  | "CE" :: fl :: m :: h :: cl :: _ => runCE fl m h cl
   | "RD" :: r => runDict ("RD" :: r)
   | "WJ" :: r => runDict ("WJ" :: r)
   | "WP" :: r => runDict ("WP" :: r)
